@@ -40,6 +40,13 @@ type Connection struct {
 	// Serialises JoinRoom/LeaveRoom of this connection
 	membershipMu sync.Mutex
 
+	// done is closed once the hub has dropped the connection. The send
+	// channel has several concurrent senders (Send, room and hub broadcasts),
+	// so it is never closed itself: closing it made any sender racing with a
+	// disconnect panic with "send on closed channel".
+	done     chan struct{}
+	doneOnce sync.Once
+
 	// Path parameters extracted from the WebSocket route pattern (e.g., :room from /chat/:room)
 	PathParams map[string]string
 
@@ -84,6 +91,27 @@ func NewConnection(id string, conn *websocket.Conn, hub *Hub) *Connection {
 		PathParams:   make(map[string]string),
 		lastPongTime: time.Now(),
 		messageQueue: make([][]byte, 0),
+		done:         make(chan struct{}),
+	}
+}
+
+// markDone records that the hub has dropped the connection. Safe to call
+// more than once.
+func (c *Connection) markDone() {
+	c.doneOnce.Do(func() {
+		if c.done != nil {
+			close(c.done)
+		}
+	})
+}
+
+// isDone reports whether the hub has dropped the connection.
+func (c *Connection) isDone() bool {
+	select {
+	case <-c.done:
+		return true
+	default:
+		return false
 	}
 }
 
@@ -202,6 +230,12 @@ func (c *Connection) WritePump() {
 				return
 			}
 
+		case <-c.done:
+			// Hub dropped the connection
+			c.conn.SetWriteDeadline(time.Now().Add(config.WriteWait))
+			c.conn.WriteMessage(websocket.CloseMessage, []byte{})
+			return
+
 		case <-ticker.C:
 			if !config.EnableHeartbeat {
 				continue
@@ -232,6 +266,10 @@ func (c *Connection) WritePump() {
 // Send sends a message to this connection
 func (c *Connection) Send(message []byte) error {
 	config := c.hub.config
+
+	if c.isDone() {
+		return ErrConnectionClosed
+	}
 
 	select {
 	case c.send <- message:
@@ -265,8 +303,12 @@ func (c *Connection) Send(message []byte) error {
 			fallthrough
 		default:
 			// Block until space is available or connection closes
-			c.send <- message
-			return nil
+			select {
+			case c.send <- message:
+				return nil
+			case <-c.done:
+				return ErrConnectionClosed
+			}
 		}
 	}
 }
@@ -307,6 +349,11 @@ func (c *Connection) JoinRoom(roomName string) {
 	// (c.rooms) and the rooms' membership change together.
 	c.membershipMu.Lock()
 	defer c.membershipMu.Unlock()
+
+	if c.isDone() {
+		// A disconnected connection is in no room.
+		return
+	}
 
 	c.roomsMu.Lock()
 	c.rooms[roomName] = true
